@@ -3,6 +3,7 @@
 package keysfam
 
 import (
+	stded "crypto/ed25519"
 	"bytes"
 	"encoding/hex"
 	"fmt"
@@ -323,7 +324,21 @@ func (f *Fam) Gen(r *rand.Rand, i int) string {
 				}
 				raw[31] = byte(1 + r.Intn(255))
 			}
-			return fmt.Sprintf("mon.keybytes %s %s", []string{"ed25519", "secp256k1"}[r.Intn(2)], hex.EncodeToString(raw))
+			kt := []string{"ed25519", "secp256k1", "ed25519seed"}[r.Intn(3)]
+			if r.Intn(3) == 0 {
+				// a key whose own first bytes are the four bytes that announce its type's registered encoding: raw bytes are
+				// raw bytes, whatever they look like
+				var sample crypto.PrivateKey
+				if kt == "secp256k1" {
+					sample = crypto.Secp256k1PrivateKey{}.PrivKeyToPrivateKey(secp256k1.GenPrivKeySecp256k1([]byte{1}))
+				} else {
+					sample = crypto.Ed25519PrivateKey{}.PrivKeyToPrivateKey(ed25519.GenPrivKeyFromSecret([]byte{1}))
+					kt = "ed25519seed"
+				}
+				copy(raw, sample.Bytes()[:4])
+				f.extra["c19:raw-key-starting-with-its-type-prefix"]++
+			}
+			return fmt.Sprintf("mon.keybytes %s %s", kt, hex.EncodeToString(raw))
 		}
 		if r.Intn(15) == 0 {
 			return fmt.Sprintf("mon.sigsplit %s %d", []string{"ed25519", "secp256k1"}[r.Intn(2)], r.Int63())
@@ -541,6 +556,10 @@ func (f *Fam) Exec(op string) (obs string, fails []common.Failure) {
 		var priv crypto.PrivateKey
 		if w[1] == "ed25519" {
 			priv = crypto.Ed25519PrivateKey{}.PrivKeyToPrivateKey(ed25519.GenPrivKeyFromSecret(seed))
+		} else if w[1] == "ed25519seed" { // the 32 bytes are the seed itself: the key's raw bytes begin with them
+			var k ed25519.PrivKeyEd25519
+			copy(k[:], stded.NewKeyFromSeed(seed))
+			priv = crypto.Ed25519PrivateKey{}.PrivKeyToPrivateKey(k)
 		} else {
 			var k secp256k1.PrivKeySecp256k1
 			copy(k[:], seed) // the scalar itself, leading zero bytes and all
